@@ -31,6 +31,12 @@ add("C03", True, "E1-bfs", "model_checking",
     "Trusted: as C01. A non-final HEARTBEAT with nothing missing is not required to be answered (the statement does not say so).",
     "5.3")
 
+add("C04", True, "E1-bfs", "model_checking",
+    "explicit-state BFS (history replay) over write/ACKNACK/match/lose/tick/repair/clean histories on the real Writer with puppet readers; ledger oracle",
+    "For every reader mix {none, best-effort, reliable, reliable+best-effort, two reliable, reliable+late joiner} x History {unspecified, KeepLast(2), KeepAll; thorough adds KeepLast(1)} x durability, all histories up to the depth bound over {Write, WriteBig (3 fragments), WriteTo(r), Ack(r, base, bitmap), Match, Lose, HbTick, Repair(r)/RepairFrags(r) while armed, Clean} plus burst-of-40 resource-limit scenarios run on a real Writer; ACKNACKs arrive as bytes through a real MessageReceiver and the acknack channel. Every emitted datagram is captured per destination and re-parsed. Oracle: needed samples stay in the history; after cleaning at most `limit` fully acknowledged samples are retained (for every mix); every request for an advertised sample is answered by exactly its bytes or a covering GAP before the writer disarms its repair timers; HEARTBEAT first/last = lowest retrievable / highest written; single-reader samples never reach another reader's locator.",
+    "Trusted: puppets are truthful (monotone bases); timer re-arm rules of Writer::handle_timed_event are modelled (repair offered exactly while armed); History limits as in handle_cache_cleaning.",
+    "5.4")
+
 NOT_YET = {}
 
 def main():
